@@ -116,6 +116,10 @@ def bg_st(draw, inherited=False, **kw):
     kw = dict(kw)
     kw.pop("cols", None)
     if draw(st.integers(0, 2)) == 0:
+        if draw(st.integers(0, 3)) == 0:
+            # background steps may contain <placeholders>: rendered for every outline row that inherits them
+            # (for a plain scenario the text stays as written: no such step definition)
+            kw["cols"] = ["x"]
         return draw(steps_st(0, 2, inherited=inherited, **kw))
     return None
 
